@@ -69,9 +69,33 @@ class _Blank(object):
 BLANK = _Blank()
 
 
-def task_reader(which, N, clause, shard=0, nshards=1, via_table=False):
+class _Blank1(object):
+    def __repr__(self): return '<blank_value of the earlier call>'
+BLANK1 = _Blank1()
+
+_SNAP = {}
+def _restore_module_state(F):
+    """Every path starts from the module state of a fresh import: module-level
+    containers (caches, tables) are put back to their contents at load time, so a
+    path never sees what another path of the exploration left behind."""
+    import copy
+    if id(F) not in _SNAP:
+        _SNAP[id(F)] = dict((k, (v, copy.copy(v))) for k, v in vars(F).items()
+                            if isinstance(v, (dict, list, set)) and not k.startswith('__'))
+    for k, (obj, content) in _SNAP[id(F)].items():
+        if isinstance(obj, list): obj[:] = content
+        else:
+            obj.clear(); obj.update(content)
+        setattr(F, k, obj)
+
+
+def task_reader(which, N, clause, shard=0, nshards=1, via_table=False, prior=None):
     """which: 'float' | 'int'; clause selects the obligation family so that
-    families run in parallel: 'value' (a,b), 'reject' (d + nan/None side), 'blank'."""
+    families run in parallel: 'value' (a,b), 'reject' (d + nan/None side), 'blank',
+    or 'all'.  prior = Np: the reader is first called on ANOTHER symbolic string
+    (length 0..Np) with a different blank value, in the same process; every clause
+    must hold for the second call whatever the first one was (the result depends on
+    the arguments of the call only)."""
     ld = _load()
     F = ld.fixed_format_file
     fn = F.fortran_float if which == 'float' else F.fortran_int
@@ -86,12 +110,18 @@ def task_reader(which, N, clause, shard=0, nshards=1, via_table=False):
     pyd = pm.PYFLOAT if which == 'float' else pm.PYINT
     failures, samples, distinct = [], [], set()
 
+    tag = which + ('-via-table' if via_table else '') + ('-after-earlier-call' if prior is not None else '')
+    clauses = ('value', 'reject', 'blank') if clause == 'all' else (clause,)
+    cur = {}
     def record(c, label, o, res_kind):
         m = c.failures[-1]['model']
         text = o.value_in(m)
-        failures.append(dict(key='%s%s/%s/%s' % (which, '-via-table' if via_table else '', res_kind, label),
-                             what='fortran_%s(%r): %s' % (which, text, label),
-                             replay=dict(which=which, text=text, clause=label, via_table=via_table)))
+        rp = dict(which=which, text=text, clause=label, via_table=via_table)
+        what = 'fortran_%s(%r): %s' % (which, text, label)
+        if prior is not None:
+            rp['prior_text'] = cur['p'].value_in(m)
+            what = 'fortran_%s(%r, blank_value=B1) then %s' % (which, rp['prior_text'], what)
+        failures.append(dict(key='%s/%s/%s' % (tag, res_kind, label), what=what, replay=rp))
 
     state = dict(k=0)
     def ob(c, f, label, o, res_kind):
@@ -104,7 +134,12 @@ def task_reader(which, N, clause, shard=0, nshards=1, via_table=False):
         return r
 
     def h(c):
+        _restore_module_state(F)
         o = BStr.fresh(c, 's', N, alphabet)
+        if prior is not None:
+            cur['p'] = p = BStr.fresh(c, 'p', prior, alphabet)
+            try: fn(p, BLANK1)
+            except Exception: return 'earlier call raised'      # proved impossible by the single-call tasks
         try:
             res = fn(o, BLANK)
         except Exception as ex:
@@ -117,34 +152,38 @@ def task_reader(which, N, clause, shard=0, nshards=1, via_table=False):
             x = res.text
             if not samples:
                 samples.append('path returning %s(text) with text capacity %d; obligations: in Fortran language => normal form of text == canonical Fortran spelling; impossible character => unreachable' % (which, x.cap))
-            if clause == 'value':
+            if 'value' in clauses:
                 if which == 'float':
                     ob(c, z3.Implies(inlang, norm_python(x).eq_expr(canon_fortran(o))), 'Fortran-written real read with Fortran meaning', o, 'number')
                     ob(c, z3.Implies(pyacc, norm_python(x).eq_expr(norm_python(o))), 'same value as float() where float() accepts', o, 'number')
                 else:
                     ob(c, z3.Implies(inlang, del_ws(x).eq_expr(del_blank(o))), 'Fortran-written integer read with Fortran meaning', o, 'number')
                     ob(c, z3.Implies(pyacc, del_ws(x).eq_expr(del_ws(o))), 'same value as int() where int() accepts', o, 'number')
-            elif clause == 'reject':
+            if 'reject' in clauses:
                 ob(c, z3.Not(has_impossible(o)), 'impossible character never yields a number', o, 'number')
-            elif clause == 'blank':
+            if 'blank' in clauses:
                 ob(c, z3.Not(all_ws(o)), 'blank field never yields a number', o, 'number')
             return 'number'
+        if res is BLANK1:
+            c.prove(False, "the result is the caller's blank value or a reading of the text")
+            record(c, "blank value of an EARLIER call returned", o, 'stale')
+            return 'stale'
         if res is BLANK:
-            if clause == 'blank':
+            if 'blank' in clauses:
                 ob(c, all_ws(o), 'blank value only for blank fields', o, 'blank')
-            elif clause == 'reject':
+            if 'reject' in clauses:
                 ob(c, z3.Not(has_impossible(o)), 'impossible character never yields the blank value', o, 'blank')
-            elif clause == 'value':
+            if 'value' in clauses:
                 ob(c, z3.Not(z3.Or(inlang, pyacc)), 'a number is not read as blank', o, 'blank')
             return 'blank'
         isnan = (res is None) if which == 'int' else (isinstance(res, float) and math.isnan(res))
         if isnan:
-            if clause == 'value':
+            if 'value' in clauses:
                 ob(c, z3.Not(inlang), 'Fortran-written number is not rejected', o, 'nan')
                 ob(c, z3.Not(pyacc), 'text Python accepts is not rejected', o, 'nan')
-            elif clause == 'blank':
+            if 'blank' in clauses:
                 ob(c, z3.Not(all_ws(o)), 'blank field is not rejected', o, 'nan')
-            elif clause == 'reject':
+            if 'reject' in clauses:
                 # reachability of the rejecting path with an impossible character (vacuity guard)
                 r, _ = c.solve(has_impossible(o))
                 if r != 'sat': c.prove(False, 'reject path unreachable with impossible character (vacuous)')
@@ -153,9 +192,9 @@ def task_reader(which, N, clause, shard=0, nshards=1, via_table=False):
         record(c, 'unexpected result %r' % (res,), o, 'other')
         return 'other'
 
-    res = sym.explore(h, sym.Ctx(timeout_ms=900000, logic='QF_BV'), max_paths=200)
+    res = sym.explore(h, sym.Ctx(timeout_ms=900000, logic='QF_BV'), max_paths=200 if prior is None else 2000)
     outs = set(p.outcome for p in res['paths'])
-    tr = report.summarize('%s%s/N=%d/%s/shard%d of %d' % (which, '-via-table' if via_table else '', N, clause, shard, nshards), res, failures, samples,
+    tr = report.summarize('%s/N=%d%s/%s/shard%d of %d' % (tag, N, '' if prior is None else ',earlier text N=%d' % prior, clause, shard, nshards), res, failures, samples,
                           extra=dict(distinct_obligations=len(distinct), N=N))
     need = {'number', 'blank', 'nan'}
     if via_table and which == 'int': need = {'number', 'nan'}
@@ -186,6 +225,11 @@ def run(tier, seed, rep):
     # the same readers reached through the conversion table used by the incon parser
     for which, N in (('float', 6), ('int', 8)) if tier == 'quick' else (('float', 8), ('int', 12)):
         tasks.append((task_reader, dict(which=which, N=N, clause='value', via_table=True)))
+    # two calls in one process: an EARLIER call on another symbolic text with another blank value
+    # must not change what the call under test returns (all three clauses on the second call)
+    hist = (('float', 3, 4), ('int', 4, 5)) if tier == 'quick' else (('float', 4, 6), ('int', 6, 8))
+    for which, Np, N in hist:
+        tasks.append((task_reader, dict(which=which, N=N, clause='all', prior=Np)))
     Nb = {}
     for which, clause, N, ns in plan:
         Nb[(which, clause)] = max(N, Nb.get((which, clause), 0))
@@ -194,6 +238,7 @@ def run(tier, seed, rep):
     rep.bounds += ['%s, clause %s: every string of length 0..%d over printable ASCII + \\t\\n\\v\\f\\r (character codes and length symbolic)' % (w, cl, n_)
                    for (w, cl), n_ in sorted(Nb.items())]
     rep.bounds += ['clauses: value = (Fortran-written number => Fortran meaning; text Python accepts => same value); reject = impossible character => nan/None; blank = blank field <=> blank value']
+    rep.bounds += ['%s, two calls in one process (earlier call: any text of length 0..%d with a different blank value; then all three clauses for every text of length 0..%d); module-level containers are reset to their import-time contents before each path' % (w, a, b) for w, a, b in hist]
     rep.outside += ['strings longer than the per-clause bound above (the quantifier says field width 20)',
                     'non-ASCII digits / whitespace', 'the numeric value CPython assigns to an accepted text (text equality up to value-preserving normalisation is what is proved)']
     rep.assumptions += ['float()/int() acceptance = DFA of CPython grammar, compared with CPython on %d strings this run' % n,
